@@ -221,11 +221,17 @@ impl Span {
         let a_1 = self.end();
         let b_1 = other.end();
 
-        let (l, r) = match (a_0 < b_0, a_1 < b_1) {
-            (true, true) => (Some((a_0, b_0)), Some((b_1, a_1))),
-            (true, _)    => (Some((a_0, b_0)), None),
-            (_,    true) => (None,             Some((b_1, a_1))),
-            _            => (None,             None),
+        // The part of the span before the other span, if any.
+        let l = if a_0 < b_0 {
+            Some((a_0, if a_1 < b_0 { a_1 } else { b_0 }))
+        } else {
+            None
+        };
+        // The part of the span after the other span, if any.
+        let r = if b_1 < a_1 {
+            Some((if a_0 > b_1 { a_0 } else { b_1 }, a_1))
+        } else {
+            None
         };
 
         let l = l.map(|(a, b)| Self::enclosing(a, b));
